@@ -281,17 +281,19 @@ Definition Hnew (s : st) (p : payment) (new : option key) : Prop :=
   (new = Some (kt (p_target p) (p_source p) (p_ext p)) /\ p_target p <> []) \/
   (new = None /\ (p_target p = [] \/ get s (kt (p_target p) (p_source p) (p_ext p)) <> None)).
 
-Definition Hold (s : st) (p : payment) (old : option key) : Prop :=
+(** When only the SPELLING of the target changes ([p_target ex = p_target p] as bytes, the strings
+    differ) the old and the new index key coincide: the entry is deleted and written again. *)
+Definition Hold (s : st) (p : payment) (old new : option key) : Prop :=
   (exists ex, old = Some (kt (p_target ex) (p_source p) (p_ext p)) /\
               get s (kp (p_source p) (p_ext p)) = Some (VPay ex) /\
-              p_target ex <> [] /\ p_target ex <> p_target p) \/
+              p_target ex <> [] /\ (p_target ex <> p_target p \/ new <> None)) \/
   (old = None /\ forall ex, get s (kp (p_source p) (p_ext p)) = Some (VPay ex) ->
                             p_target ex = [] \/ p_target ex = p_target p).
 
 Lemma sps_shape : forall s p, Inv s ->
   exists old new,
     set_payment_in_store s p = oset (odel (set s (kp (p_source p) (p_ext p)) (VPay p)) old) new /\
-    Hnew s p new /\ Hold s p old.
+    Hnew s p new /\ Hold s p old new.
 Proof.
   intros s p HI. unfold set_payment_in_store, Hnew, Hold.
   destruct (get_payment s (p_source p) (p_ext p)) as [ex|] eqn:G.
@@ -307,8 +309,11 @@ Proof.
         -- left. split; [reflexivity|discriminate].
         -- right. split; [reflexivity|]. intros ex' H'. rewrite G in H'. injection H' as <-.
            left. exact Tex.
-    + destruct (bytes_eqb (n :: l) (p_target p)) eqn:B.
-      * apply key_eqb_eq in B. cbv beta iota zeta.
+    + destruct (tgt_str_eqb (n :: l) (p_tgt_up ex) (p_target p) (p_tgt_up p)) eqn:B.
+      * assert (B' : n :: l = p_target p).
+        { unfold tgt_str_eqb in B. apply andb_true_iff in B. destruct B as [B _].
+          apply key_eqb_eq in B. exact B. }
+        clear B. rename B' into B. cbv beta iota zeta.
         exists None, None. split; [reflexivity|]. split.
         -- right. split; [reflexivity|]. right. rewrite <- B, <- Tex, <- Hsrc, <- Hext.
            apply (inv_Q s HI ex).
@@ -316,15 +321,17 @@ Proof.
            ++ rewrite Tex. discriminate.
         -- right. split; [reflexivity|]. intros ex' H'. rewrite G in H'. injection H' as <-.
            right. rewrite Tex. exact B.
-      * apply key_eqb_neq in B.
+      * clear B.
         destruct (p_target p) as [|n' l'] eqn:Tp; cbv beta iota zeta; rewrite ?k_tgt_kt.
         -- exists (Some (kt (n :: l) (p_source p) (p_ext p))), None. split; [reflexivity|]. split.
            ++ right. split; [reflexivity|left; reflexivity].
-           ++ left. exists ex. rewrite Tex. repeat split; try assumption; discriminate.
+           ++ left. exists ex. rewrite Tex. repeat split; try assumption; try discriminate.
+              left. discriminate.
         -- exists (Some (kt (n :: l) (p_source p) (p_ext p))),
                   (Some (kt (n' :: l') (p_source p) (p_ext p))). split; [reflexivity|]. split.
            ++ left. split; [reflexivity|discriminate].
-           ++ left. exists ex. rewrite Tex. repeat split; try assumption; discriminate.
+           ++ left. exists ex. rewrite Tex. repeat split; try assumption; try discriminate.
+              right. discriminate.
   - assert (Hno : forall ex, get s (kp (p_source p) (p_ext p)) = Some (VPay ex) -> False).
     { intros ex H'. apply get_payment_iff in H'. congruence. }
     destruct (p_target p) as [|n' l'] eqn:Tp; cbv beta iota zeta; rewrite ?k_tgt_kt.
@@ -377,7 +384,7 @@ Proof.
 Qed.
 
 Lemma inv_upd : forall s p old new,
-  Inv s -> p_source p <> [] -> Hnew s p new -> Hold s p old ->
+  Inv s -> p_source p <> [] -> Hnew s p new -> Hold s p old new ->
   Inv (oset (odel (set s (kp (p_source p) (p_ext p)) (VPay p)) old) new).
 Proof.
   intros s p old new HI Hsrc HN HO.
@@ -442,7 +449,7 @@ Proof.
       destruct HO as [[ex [HO [Gex [Tex Dex]]]]|[HO _]]; rewrite HO; [|discriminate].
       intros Hk. apply some_inj in Hk.
       apply (kt_inj (p_target ex) (p_source p) (p_ext p) (p_target p) (p_source p) (p_ext p)) in Hk.
-      destruct Hk as [Hk _]. contradiction.
+      destruct Hk as [Hk _]. destruct Dex as [Dex|Dex]; [contradiction|apply Dex; exact HN].
     + apply So in Hq; [|exact Nk].
       pose proof (inv_Q s HI q Hq Tq) as Hg. unfold kt in *.
       destruct (F (len_prefix (p_target q) ++ len_prefix (p_source q) ++ p_ext q)) as [_ [F2 _]].
@@ -565,6 +572,18 @@ Proof.
   apply inv_delete_payment; [exact HI|]. intros v Hg. unfold stored in Hst. congruence.
 Qed.
 
+Lemma inv_accept_payment : forall s t tup src sup e s',
+  Inv s -> accept_payment s t tup src sup e = Some s' -> Inv s'.
+Proof.
+  intros s t tup src sup e s' HI H. unfold accept_payment in H.
+  match type of H with (if ?c then _ else _) = _ => destruct c end; [discriminate|].
+  destruct (get_payment s src e) as [p|] eqn:G; [|discriminate].
+  destruct (negb (Bool.eqb _ _)); [discriminate|].
+  destruct (negb _); [discriminate|]. injection H as <-.
+  destruct (get_payment_stored _ _ _ _ HI G) as [Hst _].
+  apply inv_delete_payment; [exact HI|]. intros v Hg. unfold stored in Hst. congruence.
+Qed.
+
 Lemma inv_cancel_payments : forall s src es s', Inv s -> cancel_payments s src es = Some s' -> Inv s'.
 Proof.
   intros s src es s' HI H. unfold cancel_payments in H. cbv zeta in H.
@@ -601,7 +620,7 @@ Proof.
   intros s src e nt s' HI H. unfold retarget_payment in H.
   match type of H with (if ?c then _ else _) = _ => destruct c end; [discriminate|].
   destruct (get_payment s src e) as [p|] eqn:G; [|discriminate].
-  destruct (bytes_eqb _ nt); [discriminate|]. injection H as <-.
+  destruct (tgt_str_eqb _ _ nt false); [discriminate|]. injection H as <-.
   destruct (get_payment_stored _ _ _ _ HI G) as [_ [Hs [_ Hne]]].
   apply inv_set_payment; [exact HI|]. cbn [p_source]. rewrite Hs. exact Hne.
 Qed.
@@ -620,6 +639,8 @@ Proof.
   - cbn [fst]. eapply inv_fr; [exact HI|]. apply fr_close_market.
   - destruct (create_payment s p) as [s'|] eqn:E; cbn [fst]; [|exact HI].
     eapply inv_create_payment; eauto.
+  - destruct (accept_payment s t tup src sup e) as [s'|] eqn:E; cbn [fst]; [|exact HI].
+    eapply inv_accept_payment; eauto.
   - destruct (take_payment s t src e) as [s'|] eqn:E; cbn [fst]; [|exact HI].
     eapply inv_take_payment; eauto.
   - destruct (cancel_payments s src es) as [s'|] eqn:E; cbn [fst]; [|exact HI].
